@@ -2182,7 +2182,8 @@ class Reader:
 
         def in_use(I):
             return I["links"] > 0 or I["ino"] < first_ino
-        claims = []
+        claims = []       # [lo, hi, ino, class 1 data / 2 index / 3 ind / 4 xattr, index of the inode record, position]
+        xrefs = []        # [xattr block, referring in-use inode]
         xb_used = set()
         out_inodes = []
         for I in inodes_sorted:
@@ -2222,17 +2223,22 @@ class Reader:
             else:
                 rec["digest"] = ""
             out_inodes.append(rec)
+            rec["coff"] = len(claims)
             if in_use(I):
-                for cls in ("data", "index", "ind"):
-                    for a, b in own[cls]:
-                        claims.append([a, b, I["ino"], cls])
+                ix = len(out_inodes)
+                for code, cls in ((1, "data"), (2, "index"), (3, "ind")):
+                    for pos, (a, b) in enumerate(own[cls]):
+                        claims.append([a, b, I["ino"], code, ix, pos + 1])
                 if I["xattr_blk"]:
                     xb_used.add(I["xattr_blk"])
+                    xrefs.append([I["xattr_blk"], I["ino"]])
         for b in sorted(xb_used):
-            claims.append([b, b, 0, "xattr"])
+            claims.append([b, b, 0, 4, 0, 0])
         claims.sort()
+        xrefs.sort()
         P["inodes"] = out_inodes
         P["claims"] = claims
+        P["xrefs"] = xrefs
         # ---- output: directories + reference certificate
         out_dirs = []
         refs = []
@@ -2242,7 +2248,8 @@ class Reader:
                 dot = 1 if name == b"." else (2 if name == b".." else 0)
                 ents.append([clip(t), ft, ix_of.get(t, 0), dot, jname(name)])
                 refs.append([clip(t), dp + 1, ep + 1])
-            out_dirs.append({"dir": D["dir"], "ix": ix_of[D["dir"]], "kind": D["kind"], "levels": D["levels"],
+            out_dirs.append({"dir": D["dir"], "ix": ix_of[D["dir"]], "eoff": len(refs) - len(ents),
+                             "kind": D["kind"], "levels": D["levels"],
                              "ok": not D["err"], "err": [x for x in D["err"] if not x.startswith("csum:")],
                              "csum_err": [x for x in D["err"] if x.startswith("csum:")],
                              "dot": clip(D["dot"]), "dotdot": clip(D["dotdot"]),
@@ -2281,9 +2288,14 @@ class Reader:
                 frontier = nf
         # ---- xattr blocks
         xbs = []
+        xlo, xhi = {}, {}
+        for k, (b, _i) in enumerate(xrefs):
+            xlo.setdefault(b, k + 1)
+            xhi[b] = k + 1
         for b in sorted(self.xblocks):
             x = self.xblocks[b]
             xbs.append({"blk": b, "refcount": x["refcount"], "referrers": sorted(x.get("referrers", [])),
+                        "xlo": xlo.get(b, 0), "xhi": xhi.get(b, -1),
                         "csum_ok": x["csum_ok"], "sorted": x["sorted"], "hash_ok": x["hash_ok"],
                         "bhash_ok": x["bhash_ok"], "ok": not x["err"], "err": x["err"],
                         "names": [e_["name"] for e_ in x["entries"]]})
